@@ -971,6 +971,7 @@ private:
 		catch (...)
 		{
 			pvDestroyRaws();
+			mRaws.Clear();
 			throw;
 		}
 		pvSetNumbers();
